@@ -176,7 +176,8 @@ def classify(argv, stdin=None):
             opts, pos = _split_opts(rest, {"--message", "-m", "--merged", "--contains", "--points-at", "--sort"})
             if "--list" in opts or "-l" in opts or (not pos and "--message" not in opts and "-m" not in opts):
                 merged = "--merged" in opts
-                return (tool, "ls_tags_branch" if merged else "ls_tags", {"format": opts.get("--format")})
+                return (tool, "ls_tags_branch" if merged else "ls_tags", {"format": opts.get("--format"), "sort": opts.get("--sort"),
+                                                                            "merged": opts.get("--merged")})
             msg = opts.get("--message", opts.get("-m"))
             return (tool, "tag", {"name": pos[0] if pos else None, "message": msg, "extra_pos": pos[1:]})
         if sub == "status":
@@ -267,10 +268,12 @@ def _hexid(n):
 class FakeRepo:
     """A tiny model of repository state: commit DAG, branches, HEAD, tags, status, remote."""
 
-    def __init__(self, personality="git", remote=True, tracking=True):
+    def __init__(self, personality="git", remote=True, tracking=True, remote_name="origin"):
         self.personality = personality
         self.remote = remote
         self.tracking = tracking
+        self.remote_name = remote_name      # `git clone -o my-fork`: remote names may hold '-', '.', '_'
+
         self.parents = {}       # commit id -> [parent ids]
         self.branches = {}      # name -> commit id
         self.head = "main" if personality == "git" else "default"
@@ -446,7 +449,7 @@ class FakeRepo:
                 return (128, b"", b"fatal: no remote\n")
             self.fetch_count += 1
             where = [a for a in argv[2:] if not a.startswith("-")]
-            if not where or where[0] == "origin":
+            if not where or where[0] == self.remote_name:
                 self._receive_remote_tags()
             else:
                 # `git fetch <url>`: no configured refspec applies, only FETCH_HEAD is written and tags are not followed
@@ -461,6 +464,20 @@ class FakeRepo:
             if role == "ls_tags_branch":
                 anc = self.ancestors(self.head_commit())
                 names = [t for t in names if self.tags[t] in anc]
+            key = info.get("sort")
+            if key not in (None, True):
+                rev = key.startswith("-")
+                k = key.lstrip("-")
+                order = list(self.tags)       # creation order
+                if k in ("creatordate", "taggerdate", "committerdate"):
+                    names = sorted(names, key=order.index, reverse=rev)
+                elif k in ("refname", "refname:short"):
+                    names = sorted(names, reverse=rev)
+                elif k in ("version:refname", "v:refname"):
+                    import re as _re
+                    names = sorted(names, key=lambda n: [int(x) if x.isdigit() else x for x in _re.split(r"(\d+)", n)], reverse=rev)
+                else:
+                    raise ValueError("FakeRepo does not model `git tag --sort=%s`" % key)
             fmt = info.get("format")
             if fmt in (None, True, "%(refname:strip=2)", "%(refname:lstrip=2)"):
                 shown = names
@@ -495,6 +512,9 @@ class FakeRepo:
             self.push_log.append(list(argv[2:]))
             # what arrives: refs named on the command line; with --follow-tags also the *annotated* tags that point into the
             # pushed history (git skips lightweight tags there); with --tags every tag
+            dest = (info.get("pos") or [None])[0]
+            if dest not in (self.remote_name, "git@example.com:sim/project.git"):
+                return (128, b"", ("fatal: '%s' does not appear to be a git repository\n" % dest).encode("utf-8", "replace"))
             pos = [a for a in info.get("pos", []) if a in self.tags]
             annotated = set(n for n, msg, _c in self.tag_log if msg)
             anc = self.ancestors(self.head_commit())
@@ -507,14 +527,14 @@ class FakeRepo:
                 self.remote_tags |= set(self.tags)
             return (0, b"", b"")
         if role == "probe_remote":
-            if self.remote:
+            if self.remote and self.remote_name == "origin":
                 return (0, b"git@example.com:sim/project.git\n", b"")
             return (1, b"", b"")
         if role == "probe_branches":
             lines = []
             for name in sorted(self.branches):
                 star = "*" if name == self.head else " "
-                track = "[origin/%s] " % name if (self.remote and self.tracking) else ""
+                track = "[%s/%s] " % (self.remote_name, name) if (self.remote and self.tracking) else ""
                 lines.append("%s %s %s %ssimulated subject\n" % (star, name, self.branches[name], track))
             return (0, "".join(lines).encode("utf-8"), b"")
         return (0, b"", b"")
